@@ -249,7 +249,7 @@ func (*halg) Run(rc *core.RunCtx) *core.RunResult {
 	large := t.Intn(8) == 0
 	if large {
 		var big []corpus.Sample
-		for _, b := range corpus.MaxSize(400 * 1024) {
+		for _, b := range corpus.MaxSize(200 * 1024) {
 			if b.Size >= 70*1024 {
 				big = append(big, b)
 			}
@@ -264,6 +264,12 @@ func (*halg) Run(rc *core.RunCtx) *core.RunResult {
 	errorsCfg := rc.Config == "errors"
 	prop := rc.PropOr("C01", "C05")
 	knobs := map[string]int{"cacheReadAheadSize": aheadKnobs[t.Intn(len(aheadKnobs))], "progressPrecision": precKnobs[t.Intn(len(precKnobs))]}
+	if large {
+		// hundreds of KiB through a one-byte read-ahead or a per-byte progress callback cost
+		// minutes of scheduling: the large runs keep the block sizes a real run has
+		knobs["cacheReadAheadSize"] = []int{4096, 512 * 1024}[knobs["cacheReadAheadSize"]%2]
+		knobs["progressPrecision"] = 1024
+	}
 	g := &algGen{t: t, counts: map[string]int{}}
 	nExpr := 2 + t.Intn(4)
 	var exprs []*algNode
